@@ -377,7 +377,7 @@ def check_gp_stub(h: Harness):
         ints = [rng.randrange(0, 30) for _ in range(100 * gens)]
         floats = [rng.randrange(0, 1000)] * (40 * gens) if amb else [rng.randrange(0, 1000) for _ in range(40 * gens)]
         src = TwoStreamSource(ints, floats)
-        rec = sc.GenRecorder()
+        rec = sc.GenRecorder(limit=4 * (gens + 1) * n + 100)
         tracker = MultiObjectiveProgressTracker(problem, SequentialEvaluator(), recorders=[rec])
         gp = GeneticProgramming(problem=problem, budget=sc.Generations(gens), representation=rep, random=src, tracker=tracker,
                                 population_size=n, population_initializer=sc.Given(inds), step=sc.real_step(step))
@@ -416,10 +416,10 @@ def check_gp_tree(h: Harness):
         configs.append((step, rng.randint(2, 12), rng.choice(["standard", "half", "inject", "pigrow"])))
     for step, n, ini in configs:
         g, r, rep = sc.tree_setup(rng.randrange(1000))
-        problem = SingleObjectiveProblem(lambda p: float(sc.count_nodes(p)), minimize=rng.random() < 0.5)
-        rec = sc.GenRecorder()
-        tracker = SingleObjectiveProgressTracker(problem, SequentialEvaluator(), recorders=[rec])
         gens = h.n(3, 8)
+        problem = SingleObjectiveProblem(lambda p: float(sc.count_nodes(p)), minimize=rng.random() < 0.5)
+        rec = sc.GenRecorder(limit=4 * (gens + 1) * n + 100)
+        tracker = SingleObjectiveProgressTracker(problem, SequentialEvaluator(), recorders=[rec])
         tree = sc.default_step_tree() if step is None else step
         real = default_generic_programming_step() if step is None else sc.real_step(step)
         if ini == "standard":
